@@ -1,6 +1,7 @@
 import Driver.Util
 import Driver.C07
 import NixModel.Pure.Tagging
+import NixModel.Pure.TagLookup
 open Lean Nix.Dim Nix.Tagging Nix.DataView
 
 /-!
@@ -17,6 +18,13 @@ Line protocol of the C08 model: one JSON object per line.
   dim  ::= ["sampled", off|null, si, unit|null] | ["range", [tick, …], unit|null] | ["set", nlabels]
   tag:  "pos": [x, …], "ext": [x, …] ([] = no extent stored)
   mtag: "pos": {"r": 1, "v": [x, …]} | {"r": 2, "c": ncols, "v": [[x, …], …]}, "ext": null | the same
+
+Addressing by key (optional; without "key" the reference `refidx` / the last feature is taken by its index):
+   "key": ["idx", i] | ["text", s, is_uuid] | ["other"]
+   op = tagged:  "refs":  [[id, name], …]   (nrefs entries in creation order; entry `refidx` is the array of the case,
+                                             every other entry is the dummy array: shape [4], one unlabelled set dimension)
+   op = feature: "feats": [[id, data_id, data_name, link, on_case_array], …]   (creation order)
+ the answer then carries "on": the position of the entity the key found.
 
 Rationals travel as "num/den" strings.  Answer: {"ok": {"valid": b, "window": [[start, stop], …]}}
 (the stored slices; meaningful for a valid view) or {"err": "<Err>"}.
@@ -95,6 +103,43 @@ def outView (r : Except Nix.Err View) : Json :=
       ("window", Json.arr (v.window.map fun w =>
         Json.arr #[Json.num (JsonNumber.fromInt w.1), Json.num (JsonNumber.fromInt w.2)]).toArray)])
 
+def jKey? (j : Json) : Option Key :=
+  match jArr j |>.toList with
+  | [Json.str "idx", i] => (jInt? i).map Key.idx
+  | [Json.str "text", Json.str s, Json.bool u] => some (.text s.toList u)
+  | [Json.str "other"] => some .other
+  | _ => none
+
+def dummyArr : Arr := ⟨[4], [.set 0]⟩
+
+def jRefs? (j : Json) (tgt : Nat) (arr : Arr) : Option (List RefEnt) :=
+  match j with
+  | .arr a =>
+    (a.toList.zipIdx).mapM fun (x, i) =>
+      match jArr x |>.toList with
+      | [Json.str id, Json.str name] => some ⟨id.toList, name.toList, if i = tgt then arr else dummyArr⟩
+      | _ => none
+  | _ => none
+
+def jFeats? (j : Json) (arr : Arr) : Option (List FeatEnt) :=
+  match j with
+  | .arr a =>
+    a.toList.mapM fun x =>
+      match jArr x |>.toList with
+      | [Json.str id, Json.str did, Json.str dname, l, Json.bool on] =>
+        (jLink? l).map fun link => ⟨id.toList, did.toList, dname.toList, link, if on then arr else dummyArr⟩
+      | _ => none
+  | _ => none
+
+def outViewOn (r : Except Nix.Err View) (on : Except Nix.Err Nat) : Json :=
+  match r with
+  | .error e => err e
+  | .ok v =>
+    ok (Json.mkObj [("valid", Json.bool v.valid),
+      ("window", Json.arr (v.window.map fun w =>
+        Json.arr #[Json.num (JsonNumber.fromInt w.1), Json.num (JsonNumber.fromInt w.2)]).toArray),
+      ("on", match on with | .ok k => Json.num (JsonNumber.fromNat k) | .error _ => Json.null)])
+
 def handle (j : Json) : Json :=
   match jNats? (field j "shape"), jDims? (field j "dims"), jStrs? (field j "units"), jSlice? (field j "stop") with
   | some shape, some dims, some units, some stop =>
@@ -106,11 +151,21 @@ def handle (j : Json) : Json :=
         let t : TagDesc := ⟨pos, ext, units⟩
         if op == "tagged" then
           match jNat? (field j "nrefs"), jNat? (field j "refidx") with
-          | some nrefs, some refidx => outView (Tag.taggedData t nrefs refidx arr stop)
+          | some nrefs, some refidx =>
+            if isNull (field j "key") then outView (Tag.taggedData t nrefs refidx arr stop)
+            else
+              match jKey? (field j "key"), jRefs? (field j "refs") refidx arr with
+              | some key, some refs => outViewOn (Tag.taggedDataBy t refs key stop) (refLookup refs key)
+              | _, _ => bad "C08: key / refs"
           | _, _ => bad "C08: nrefs / refidx"
         else if op == "feature" then
           match jNat? (field j "nfeats"), jLink? (field j "link") with
-          | some nfeats, some link => outView (Tag.featureData t nfeats link arr stop)
+          | some nfeats, some link =>
+            if isNull (field j "key") then outView (Tag.featureData t nfeats link arr stop)
+            else
+              match jKey? (field j "key"), jFeats? (field j "feats") arr with
+              | some key, some feats => outViewOn (Tag.featureDataBy t feats key stop) (featLookup feats key)
+              | _, _ => bad "C08: key / feats"
           | _, _ => bad "C08: nfeats / link"
         else bad "C08: unknown op"
       | _, _ => bad "C08: tag pos / ext"
@@ -122,11 +177,21 @@ def handle (j : Json) : Json :=
         let t : MTagDesc := ⟨pos, ext, units⟩
         if op == "tagged" then
           match jNat? (field j "nrefs"), jNat? (field j "refidx") with
-          | some nrefs, some refidx => outView (MultiTag.taggedData t nrefs idx refidx arr stop)
+          | some nrefs, some refidx =>
+            if isNull (field j "key") then outView (MultiTag.taggedData t nrefs idx refidx arr stop)
+            else
+              match jKey? (field j "key"), jRefs? (field j "refs") refidx arr with
+              | some key, some refs => outViewOn (MultiTag.taggedDataBy t refs idx key stop) (refLookup refs key)
+              | _, _ => bad "C08: key / refs"
           | _, _ => bad "C08: nrefs / refidx"
         else if op == "feature" then
           match jNat? (field j "nfeats"), jLink? (field j "link") with
-          | some nfeats, some link => outView (MultiTag.featureData t nfeats idx link arr stop)
+          | some nfeats, some link =>
+            if isNull (field j "key") then outView (MultiTag.featureData t nfeats idx link arr stop)
+            else
+              match jKey? (field j "key"), jFeats? (field j "feats") arr with
+              | some key, some feats => outViewOn (MultiTag.featureDataBy t feats idx key stop) (featLookup feats key)
+              | _, _ => bad "C08: key / feats"
           | _, _ => bad "C08: nfeats / link"
         else bad "C08: unknown op"
       | _, _, _ => bad "C08: mtag pos / ext / idx"
